@@ -140,8 +140,62 @@ def task_big(t):
     return rep
 
 
+def task_chain(t):
+    """A very DEEP diagram: a conjunction chain over N variables (one node per level), built
+    bottom-up with find_or_add.  Reference counting and collection must cope with it as with any
+    other diagram (they are loops in the library, not recursions)."""
+    _, N, _f = t
+    rep = run.Report()
+    rec = sweep.Rec(rep)
+    case = dict(task=t, levels=N)
+    try:
+        m = S.new_bdd({'v%d' % i: i for i in range(N)})
+        u = 1
+        for i in reversed(range(N)):
+            u = m.find_or_add(i, -1, u)
+        m.incref(u)
+        w = m.find_or_add(0, u if False else -1, m.find_or_add(1, -1, 1))    # a second small root
+        m.incref(w)
+        rep.add('evaluations')
+        n0 = len(m)
+        if n0 < N + 1:
+            raise Violation('the chain does not have one node per level', nodes=n0)
+        O.check(m, {abs(u): 1, abs(w): 1}, None, semantic=False)
+        m.collect_garbage()
+        if len(m) != n0:
+            raise Violation('collect_garbage() freed referenced nodes of a deep chain')
+        m.decref(u)
+        m.collect_garbage()
+        rep.add('evaluations')
+        rep.add('nontrivial')
+        live = O.reachable(m, [w])
+        if set(m._succ) != live:
+            raise Violation('after releasing a deep chain, collect_garbage() does not leave '
+                            'exactly the reachable nodes', stored=len(m._succ), reachable=len(live))
+        O.check(m, {abs(w): 1}, None, semantic=False)
+        # rooted collection of a second chain
+        u = 1
+        for i in reversed(range(2, N)):
+            u = m.find_or_add(i, -1, u)
+        m.collect_garbage([abs(u)])
+        rep.add('evaluations')
+        if set(m._succ) != live:
+            raise Violation('a rooted collection of an unreferenced deep chain does not free it')
+        O.check(m, {abs(w): 1}, None, semantic=False)
+    except Violation as e:
+        rec('chain:' + e.what, e.what, case, **e.detail)
+    except Exception as e:  # noqa
+        rec('chain-exception:' + type(e).__name__, 'raised %r' % (e,), case)
+    rep.sample(dict(kind='deep chain', levels=N))
+    return rep
+
+
+def _dispatch_big(t):
+    return task_chain(t) if t[0] == 'chain' else task_big(t)
+
+
 def big_plan(tier):
-    ts = [('big', 7, 0, 1, None)]
+    ts = [('chain', 1500, None), ('big', 7, 0, 1, None)]
     ts += [('big', 10, si, 8, None) for si in range(8)]
     return ts
 
@@ -156,14 +210,14 @@ def _mach(case):
 
 def replay(case):
     if 'task' in case:
-        return sweep.replay_by_task(task_big)(case)
+        return sweep.replay_by_task(_dispatch_big)(case)
     m = BddMachine(tuple(case['names']), max_handles=9, max_ext=9, with_sort=True)
     return m.replay(case)
 
 
 def main(tier, t0):
     rep = run.Report()
-    run.pmerge(task_big, big_plan(tier), rep)
+    run.pmerge(_dispatch_big, big_plan(tier), rep)
     run.close_pool()
     total = dict(states=0, transitions=0, validated=0)
     layers = {}
